@@ -61,8 +61,11 @@ func runCase(root string, ic *inCase, made map[string]int64) (oc outCase, err er
 	oc.Vol = []volStruct{}
 	oc.Laid = []laidStruct{}
 	defer func() {
+		// a panic inside the code under test is an outcome of the case (judged by the check), not a driver failure
 		if r := recover(); r != nil {
-			err = fmt.Errorf("panic in case %s: %v", ic.Case, r)
+			oc.LayoutErr = fmt.Sprintf("PANIC: %v", r)
+			oc.Laid = []laidStruct{}
+			err = nil
 		}
 	}()
 	for name, sz := range ic.Images {
